@@ -9,6 +9,8 @@ for d in seeded/*/; do
   out=$(timeout 1800 ./check.sh $prop quick 2>&1); rc=$?
   git -C /repo checkout -- . ; git -C /repo clean -fdq -- . 2>/dev/null
   v=$(echo "$out" | grep -m1 "vsim: violation" | cut -c1-160)
+  never=$(python3 -c "import json;print(json.load(open('$d/meta.json')).get('caught',True))")
+  if [ "$never" = "False" ]; then echo "$id $prop exit=$rc (recorded as never caught: see meta.json) $v"; continue; fi
   echo "$id $prop exit=$rc $v"
   [ $rc = 1 ] || missed=$((missed+1))
 done
